@@ -66,6 +66,15 @@ func runLinz(o Opts) *Result {
 		}
 		_ = b.Write(ctx, keyBytes[6], 900)
 		_ = b.Write(ctx, keyBytes[7], 901)
+		// filler entries, written once and never touched again except by the batch operations: several per shard
+		nFill := 0
+		if idx%2 == 0 {
+			nFill = 400
+		}
+		for i := 0; i < nFill; i++ {
+			_ = b.Write(ctx, []byte(fmt.Sprintf("filler-%d", i)), 1000+i)
+		}
+		var daDone int64 // response stamp of the first completed DeleteAll (0 = none yet)
 		res.Evaluations++
 		res.count("backend:" + kind)
 		var ctr int64
@@ -166,6 +175,11 @@ func runLinz(o Opts) *Result {
 				b.WalkCB(func(e EntryObs) {
 					ret := atomic.AddInt64(&ctr, 1)
 					seen[e.Key]++
+					if strings.HasPrefix(e.Key, "filler-") {
+						if d := atomic.LoadInt64(&daDone); d != 0 && d < prev {
+							walkErr.Store(fmt.Sprintf("Walk reported %s although a DeleteAll had completed (stamp %d) before the iteration reached it (stamp %d) and nothing re-wrote it", e.Key, d, prev))
+						}
+					}
 					for k := 1; k <= 7; k++ {
 						if string(keyBytes[k]) != e.Key {
 							continue
@@ -252,6 +266,7 @@ func runLinz(o Opts) *Result {
 						e.inv = atomic.AddInt64(&ctr, 1)
 						b.DeleteAll(ctx)
 						e.ret = atomic.AddInt64(&ctr, 1)
+						atomic.CompareAndSwapInt64(&daDone, 0, e.ret)
 					case "cl":
 						e.op, e.res = "cl", "unit"
 						e.inv = atomic.AddInt64(&ctr, 1)
